@@ -10,7 +10,7 @@ Proof. vm_compute. reflexivity. Qed.
 Example cmp_ex : spec_string_lt [97; 55357] [97; 65281] = true.  (* lone/high surrogate < U+FF01 in code-unit order *)
 Proof. vm_compute. reflexivity. Qed.
 
-From V Require Import C03.Tree C03.Fold C03.MiniJS C03.NumProofs C03.TreeProofs.
+From V Require Import C03.Tree C03.Fold C03.MiniJS C03.Worlds C03.NumProofs C03.TreeProofs.
 (* (-1) >>> 0 = 4294967295 ; 1 << 31 = -2147483648 ; 2^32+5 | 0 = 5 *)
 Example fold_ex :
   [fold_num_num cvt_amd64 BUShr (Fin true 1 0) (Fin false 0 0);
@@ -23,14 +23,25 @@ Proof. vm_compute. reflexivity. Qed.
 
 (* to_boolean_sound is not vacuous: `f(), !0` evaluates (probe 1000 logged) and is reported truthy with side effects *)
 Definition ex_e : expr := EBin BComma (ECall (EId 1000 false false) [] 0 false) (EUn UNot (ENum (Fin false 0 0)) false).
+(* a world where calling the global 1000 logs 1000 and returns null *)
+Definition Wex : world := {|
+  w_unbound := fun r => 1000 <=? r; w_lenv := fun _ => VUndef; w_this := VUndef;
+  w_genv := fun r => Some (VObj r);
+  w_un := fun _ _ _ => ([], Val (VNum (Fin false 0 0)));
+  w_bin := fun _ _ _ _ => ([], Val (VNum (Fin false 0 0)));
+  w_call := fun f _ _ => (match f with VObj r => [r] | _ => [] end, Val VNull);
+  w_new := fun _ _ _ => ([], Val VObjLit);
+  w_get := fun _ _ _ => ([7], Val VUndef);          (* every property read is a logged getter *)
+  w_tokey := fun v _ => ([], Val v);
+  w_tostr := fun _ _ => ([], Val (VStr []));
+  w_spread := fun _ _ => ([], Val VUndef) |}.
 Example to_boolean_ex :
   to_boolean ex_e = (true, false, true) /\
-  eval (fun r => 1000 <=? r) (fun _ => VUndef) (fun _ => None) (fun _ _ => Val VNull)
-       (fun _ _ _ => ([], Val VUndef)) (fun _ _ _ _ => ([], Val VUndef)) [] ex_e = Some ([1000], Val (VBool true)) /\
-  wf_flags ex_e.
+  eval Wex [] ex_e = Some ([1000], Val (VBool true)) /\
+  flags_ok Wex ex_e.
 Proof.
   split; [vm_compute; reflexivity|]. split; [vm_compute; reflexivity|].
-  cbn. repeat split; intros; discriminate.
+  cbn. repeat split; intros; try discriminate; exact I.
 Qed.
 
 (* the models rewrite: a ? true : f()  ->  a || f() in a boolean context *)
@@ -58,9 +69,34 @@ Example join_left_ex :
 Proof. vm_compute. reflexivity. Qed.
 Example short_circuit_ex : short_circuit BLogOr.
 Proof. right; left; reflexivity. Qed.
-(* to_nullish_sound's hypotheses are satisfiable: operators returning numbers *)
-Example nullish_hyp_ex :
-  (forall (op : unop) (v : value) (t : nat) tr' w, (fun _ _ _ => (@nil Z, Val (VNum NaN))) op v t = (tr', Val w) -> nullish w = false).
-Proof. intros op v t tr' w H. inversion H. reflexivity. Qed.
 Example to_nullish_ex : to_nullish (EBin BComma (ECall (EId 1000 false false) [] 0 false) (EUn UVoid (EStr [97]) false)) = (true, false, true).
 Proof. vm_compute. reflexivity. Qed.
+
+From V Require Import C03.WorldEx C03.TreeProofs3 C03.TreeProofs4.
+(* expr_can_be_removed_sound / known_type_sound are not vacuous: Wgood is a world_ok
+   world with logged getters, calls and object conversions; the expression
+     [ typeof g !== "undefined" && g, ...[x], "a" < "b", `t${1}`, {["k"]: !x} ]
+   is removable, its flags are ok and it evaluates *)
+Definition ex_guard : expr :=
+  EBin BLogAnd (EBin BStrictNe (EUn UTypeof (EId 1000 false false) true) (EStr str_undefined)) (EId 1000 false false).
+Definition ex_removable : expr :=
+  EArray [ex_guard; ESpread (EArray [EId 1 false false]); EBin BLt (EStr [97]) (EStr [98]);
+          ETemplate [116] [(ENum (Fin false 1 0), [])];
+          EObject [(0, true, EStr [107], EUn UNot (EId 1 false false) false)]].
+Example can_be_removed_ex :
+  can_be_removed (w_unbound Wgood) ex_removable = true /\
+  eval Wgood [] ex_removable = Some ([], Val VArr) /\
+  flags_ok Wgood ex_removable /\ world_ok Wgood.
+Proof.
+  split; [vm_compute; reflexivity|]. split; [vm_compute; reflexivity|]. split; [|exact Wgood_ok].
+  cbn. repeat split; intros; try discriminate; try exact I; eauto.
+Qed.
+(* ... while a property read is a logged getter in that world (and is not removable) *)
+Example getter_effect_ex :
+  eval Wgood [] (EDot (EId 1 false false) [120] 0 false false) = Some ([7], Val (VObj 5)) /\
+  can_be_removed (w_unbound Wgood) (EDot (EId 1 false false) [120] 0 false false) = false.
+Proof. split; vm_compute; reflexivity. Qed.
+Example known_type_ex :
+  known_type (EBin BAdd (EStr [97]) (EId 1 false false)) = PString /\
+  eval Wgood [] (EBin BAdd (EStr [97]) (EId 1 false false)) = Some ([88], Val (VStr [])).
+Proof. split; vm_compute; reflexivity. Qed.
